@@ -110,7 +110,20 @@ func (m *machine) run(t *rapid.T, snaps []snapshot) {
 			}
 		}
 	}
+	// objects touched by the previous step: aliasing defects show when a later call works on an
+	// object that an earlier call (Set, Copy, decode, …) has silently tied to another one, so the
+	// generator prefers chains on related objects
+	var recent []*slot
 	pick := func(kn string, label string) *slot {
+		var ridx []*slot
+		for _, s := range recent {
+			if s.kind == kn {
+				ridx = append(ridx, s)
+			}
+		}
+		if len(ridx) > 0 && rapid.IntRange(0, 9).Draw(t, label+".recent") < 5 {
+			return ridx[rapid.IntRange(0, len(ridx)-1).Draw(t, label+".ri")]
+		}
 		var idx []int
 		for i, s := range pool {
 			if s.kind == kn {
@@ -148,7 +161,7 @@ func (m *machine) run(t *rapid.T, snaps []snapshot) {
 	if !check("seed") {
 		return
 	}
-	steps := rapid.IntRange(1, vlib.N(14, 30)).Draw(t, "steps")
+	steps := rapid.IntRange(1, vlib.N(24, 40)).Draw(t, "steps")
 	for st := 0; st < steps; st++ {
 		if rapid.IntRange(0, 9).Draw(t, "action") == 0 {
 			// decode into a previously used object
@@ -292,6 +305,14 @@ func (m *machine) run(t *rapid.T, snaps []snapshot) {
 		}
 		for wi, wm := range writeModels {
 			args[wi].model = wm
+		}
+		recent = recent[:0]
+		if recv != nil {
+			recent = append(recent, recv)
+		}
+		recent = append(recent, args...)
+		if len(pool) > 0 && res != nil {
+			recent = append(recent, pool[len(pool)-1])
 		}
 		if aliased {
 			nontrivial = true
